@@ -69,6 +69,8 @@ def cases(tier):
         for ti, tgt in enumerate(TARGETS):
             for route in ('cls', 'cfg', 'potable') + (('proc',) if tgt != 'excel_eam_fs' else ()):
                 out.append(dict(m=m, route=route, target=tgt))
+    for i, m in enumerate(EK.species_layout_models(True)):
+        out.append(dict(m=m, route=('cfg', 'potable')[i % 2], target='setfl_fs'))
     for m in EK.api_option_models(True):
         for tgt in ('setfl_fs', 'DL_POLY_EAM_fs'):
             if ('title' in m and tgt == 'setfl_fs') or ('comments' in m and tgt != 'setfl_fs'):
@@ -101,6 +103,14 @@ def cases(tier):
                     continue
                 for tgt in TARGETS:
                     out.append(dict(m=m, route=('cfg', 'potable')[k % 2], target=tgt))
+    # a model read from a file, one undeclared density function then set through the Python objects before writing
+    for els in (['Al', 'Cu', 'Fe'], ['Fe', 'Ni', 'Al', 'Cu']):
+        base = sorted(els, key=EK.idx)
+        a = base[0]
+        dens = ['%s->%s' % (a, b) for b in base]                       # only `a` is ever a central atom
+        for setpair in ((base[1], a), (base[2], base[1]), (base[-1], base[-1])):
+            for tgt in TARGETS:
+                out.append(dict(m=dict(fs=True, embed=list(els), dens=dens, pairs=[], species='builtin', nr=4, cutoff=2.5, nrho=3, cutoff_rho=50.0, set_after=list(setpair)), route='cfg-mutate', target=tgt))
     return out
 
 
@@ -128,7 +138,17 @@ def run_case(case):
 
     def V(sig, msg):
         viol.append(dict(sig=sig, msg=msg, detail={}))
-    data = EK.produce(m, tgt, route)
+    if route == 'cfg-mutate':
+        from .. import routes as R_
+        tab = R_.config_read(EK.eam_ini(m, tgt))
+        c_, n_ = m['set_after']
+        pot = [p for p in tab.eam_potentials if p.species == c_][0]
+        pot.electronDensityFunction[n_] = R_.api_defn(EK.dens_fs_defn(c_, n_))
+        data = R_.write_tabulation(tab)
+        m = dict(m, dens=m['dens'] + ['%s->%s' % (c_, n_)])
+        route = 'cfg'
+    else:
+        data = EK.produce(m, tgt, route)
     ref = EK.ref_functions(m, EK.semantics(route))
     els = EK.model_elements(m)
     dr = m['cutoff'] / (m['nr'] - 1)
